@@ -598,8 +598,8 @@ impl Check for C18 {
         dist_cells().len() as u64
             + 3
             + match tier {
-                Tier::Quick => 400_000,
-                Tier::Thorough => 30_000_000,
+                Tier::Quick => 3_000_000,
+                Tier::Thorough => 300_000_000,
             }
     }
 
